@@ -26,7 +26,7 @@ class Job:
                  loop_contracts=False, unwindset=(), expected_wrap=(), timeout=300, defines=(), backend='sat',
                  min_obligations=1, reach=('return',), enforce=True, pre_includes=('stubs/gmp_types.h',),
                  checks=None, proves='', entry_hook=None, replay=None, opaque=(), extra_roots=(), no_reach_return=False,
-                 object_bits=None, bounded_note=None, nondet_static=False, aux_tu=None, throwing_stubs=()):
+                 object_bits=None, bounded_note=None, nondet_static=False, aux_tu=None, throwing_stubs=(), ghost_buffers=None):
         self.__dict__.update(locals()); del self.__dict__['self']
 
 class Obligation:
@@ -130,7 +130,7 @@ def run_job(sess, job):
     d = os.path.join(sess.scratch, re.sub(r'[^A-Za-z0-9_.-]', '_', job.name) + '-' + hashlib.sha1(job.name.encode()).hexdigest()[:6]); os.makedirs(d, exist_ok=True)
     try:
         tu = sess.tu(job.tu)
-        lw = osmt2c.Lowerer(tu, stubs=job.stubs, opaque_records=job.opaque, srcroot=sess.repo)
+        lw = osmt2c.Lowerer(tu, stubs=job.stubs, opaque_records=job.opaque, srcroot=sess.repo, ghost_buffers=getattr(job, 'ghost_buffers', None))
         roots = []
         for r in [job.root] + list(job.extra_roots):
             f = lw.find(r)
@@ -241,12 +241,18 @@ LIB_FILES = ('<builtin-library', '<built-in')
 
 def classify(job, obs, res):
     nreach = 0; failed = []; unknown = []
+    probes = {}
     for o in obs:
         if o.desc.startswith('reach:'):
-            o.cls = 'reach'; nreach += 1
-            if o.status != 'FAILURE':
-                raise Undecided('vacuity: reachability probe "%s" is not reachable (status %s) -- the preconditions are contradictory or the path is dead' % (o.desc, o.status))
-            continue
+            # loop-contract instrumentation duplicates loop bodies: a probe is fine if at least one of its copies is reachable
+            o.cls = 'reach'
+            probes.setdefault(o.desc, []).append(o.status)
+    for desc, sts in probes.items():
+        if 'FAILURE' not in sts:
+            raise Undecided('vacuity: reachability probe "%s" is not reachable (statuses %s) -- the preconditions are contradictory or the path is dead' % (desc, sorted(set(sts))))
+    nreach = len(probes)
+    for o in obs:
+        if o.cls == 'reach': continue
         if any(o.function == f and s in o.desc for f, s in job.expected_wrap):
             o.cls = 'excluded'; continue
         if 'undefined function should be unreachable' in o.desc:
@@ -265,7 +271,7 @@ def classify(job, obs, res):
     if len(real) < job.min_obligations:
         raise Undecided('vacuity: only %d obligations generated (expected at least %d)' % (len(real), job.min_obligations))
     if job.loop_contracts:
-        if not any('loop invariant' in o.desc.lower() and 'step' in o.desc.lower() or 'preserved' in o.desc.lower() for o in obs):
+        if not any('loop_invariant_step' in (o.pid or '') for o in obs):
             raise Undecided('loop contracts were requested but no loop-invariant step obligation was generated (contract silently dropped)')
     if failed: res['status'] = 'violated'
     elif unknown: res['status'] = 'undecided'; res['note'] = '%d obligations UNKNOWN, e.g. %s' % (len(unknown), unknown[0].desc)
